@@ -117,6 +117,15 @@ def scenarios(ctx):
     for k in range(3):
         scs.append(scenario(word, "eof", False, plan={"on_message": "r", "on_error": "o" * k + "r"}))
     scs.append(scenario(word, "silence", False, plan={"on_message": "rr", "on_data": "or", "on_ping": "r"}))
+    # re-established connections (reconnect on): on_reconnect when given, otherwise on_open again, first on EVERY connection
+    from props import c15
+    for seq in (("Ee", "Ee"), ("Er", "R", "Ee"), ("Ee", "J", "Er", "Ee"), ("R", "Ee", "Ee"), ("Ex", "Ee")):
+        for drop in (None, "on_reconnect", "on_open", "on_error"):
+            for ssl in (False, True):
+                mask = appsim.ALL if drop is None else appsim.ALL & ~(1 << CBS.index(drop))
+                sc = c15.scenario(seq, TPS, "close", cbs=mask, ssl=ssl)
+                sc["tag"] = f"{'-'.join(seq)}|reconnect"
+                scs.append(sc)
     # random longer histories
     n = 3000 if ctx.thorough() else 150
     for _ in range(n):
@@ -133,9 +142,9 @@ def scenarios(ctx):
 
 
 def run(ctx):
-    ctx.rule = ("one established connection; every history over {t,b,T,B,p,q,burst} up to length 4 (thorough 5) x "
+    ctx.rule = ("every history over {t,b,T,B,p,q,burst} up to length 4 (thorough 5) x "
                 "{silence, eof} x {plain, TLS-style}; all 256 callback subsets; each callback raising at each "
-                "invocation; first fragment alone; random histories to length 20 "
+                "invocation; first fragment alone; reconnecting runs (2-4 connections) with and without on_reconnect / on_open; random histories to length 20 "
                 "(non-trivial = at least one server event or a plan)")
     corp = [d["input"] for d in appcheck.corpus("C13")]
     if corp:
